@@ -32,6 +32,8 @@ pub mod prelude;
 #[cfg(test)]
 pub mod test_util;
 mod util;
+#[cfg(mdk_verif)]
+pub mod verif_hooks;
 pub mod welcomes;
 
 use self::callback::{MdkCallback, RollbackInfo};
